@@ -170,6 +170,75 @@ def recognise_handler(h: typing.Optional[dict]) -> str:
     return 'HUnd'
 
 
+def _token_encoder_class() -> ast.ClassDef:
+    tree = gen.parse_repo('src/nunavut/lang/_common.py')
+    for node in tree.body:
+        if isinstance(node, ast.ClassDef) and node.name == 'TokenEncoder':
+            return node
+    raise FailClosed('class TokenEncoder not found in lang/_common.py')
+
+
+def _strip_doc(body):
+    body = list(body)
+    if body and isinstance(body[0], ast.Expr) and isinstance(body[0].value, ast.Constant) and isinstance(body[0].value.value, str):
+        body = body[1:]
+    return body
+
+
+def strop_reverifies() -> bool:
+    """How does TokenEncoder.strop hand back its result?  Two shapes are modelled (Gen/Strop.v, sc_reverify):
+         return stropped                                              -> False
+         return self.<m>(stropped, token_type_lower)   with
+             def <m>(self, a, b):  self._do_for_type_and_all(self.<check>, a, b, True)  for each of the three checks
+                                   (_strop_by_pattern, _strop_by_keyword, _encode, each exactly once, any order);  return a
+                                                                      -> True
+       anything else fails closed."""
+    cls = _token_encoder_class()
+    methods = {f.name: f for f in cls.body if isinstance(f, ast.FunctionDef)}
+    fn = methods.get('strop')
+    if fn is None:
+        raise FailClosed('TokenEncoder.strop not found')
+    rets = [n for n in ast.walk(fn) if isinstance(n, ast.Return)]
+    last = fn.body[-1]
+    if len(rets) != 1 or rets[0] is not last or last.value is None:
+        raise FailClosed('TokenEncoder.strop: expected exactly one return, as the last statement')
+    v = last.value
+    if isinstance(v, ast.Name):
+        return False
+    if not (isinstance(v, ast.Call) and isinstance(v.func, ast.Attribute) and _is_name(v.func.value, 'self') and not v.keywords
+            and len(v.args) == 2 and all(isinstance(a, ast.Name) for a in v.args)):
+        raise FailClosed('TokenEncoder.strop: the returned expression is neither a variable nor self.<method>(token, type)')
+    # the second argument must be the lower-cased type the dry-run checks in strop itself use
+    dry_types = {c.args[2].id for c in ast.walk(fn) if isinstance(c, ast.Call) and isinstance(c.func, ast.Attribute)
+                 and c.func.attr == '_do_for_type_and_all' and len(c.args) == 4 and isinstance(c.args[2], ast.Name)}
+    if dry_types != {v.args[1].id}:
+        raise FailClosed('TokenEncoder.strop: the re-verification is not called with the type the other checks use')
+    m = methods.get(v.func.attr)
+    why = 'TokenEncoder.%s is not the modelled final re-verification' % v.func.attr
+    if m is None:
+        raise FailClosed(why + ' (method not found)')
+    a = m.args
+    if a.vararg or a.kwarg or a.kwonlyargs or a.defaults or len(a.posonlyargs) + len(a.args) != 3 or m.decorator_list:
+        raise FailClosed(why + ' (signature)')
+    _, p_tok, p_ty = [x.arg for x in list(a.posonlyargs) + list(a.args)]
+    body = _strip_doc(m.body)
+    if len(body) != 4 or not (isinstance(body[3], ast.Return) and _is_name(body[3].value, p_tok)):
+        raise FailClosed(why + ' (three checks followed by `return <token>` expected)')
+    seen = set()
+    for st in body[:3]:
+        c = st.value if isinstance(st, ast.Expr) else None
+        if not (isinstance(c, ast.Call) and isinstance(c.func, ast.Attribute) and c.func.attr == '_do_for_type_and_all'
+                and _is_name(c.func.value, 'self') and not c.keywords and len(c.args) == 4
+                and isinstance(c.args[0], ast.Attribute) and _is_name(c.args[0].value, 'self')
+                and _is_name(c.args[1], p_tok) and _is_name(c.args[2], p_ty)
+                and isinstance(c.args[3], ast.Constant) and c.args[3].value is True):
+            raise FailClosed(why + ' (statement is not self._do_for_type_and_all(self.<check>, token, type, True))')
+        seen.add(c.args[0].attr)
+    if seen != {'_strop_by_pattern', '_strop_by_keyword', '_encode'}:
+        raise FailClosed(why + ' (checks %s)' % sorted(seen))
+    return True
+
+
 def lru_maxsize() -> typing.Optional[int]:
     """functools.lru_cache(maxsize=N) on TokenEncoder.strop, read with ast; None when strop is not cached"""
     tree = gen.parse_repo('src/nunavut/lang/_common.py')
@@ -208,6 +277,15 @@ def build_text(doc: dict) -> str:
         raise FailClosed('keyword.kwlist dump malformed')
     parts.append('(* keyword.kwlist of the interpreter that runs nunavut *)\n' + _str_list('py_kwlist', kw))
     ms = lru_maxsize()
+    reverify = strop_reverifies()
+    parts.append('(* does TokenEncoder.strop re-verify the token it returns (read with ast)? *)\n'
+                 'Definition strop_reverifies : bool := %s.\n' % ('true' if reverify else 'false'))
+    # independent oracle for Python's reserved names: keyword.kwlist + dir(builtins) of the interpreter that runs nunavut,
+    # computed by the harness itself (not read from nunavut.lang.py)
+    kb = doc['py_kw_builtins']
+    if not (isinstance(kb, list) and kb and all(isinstance(w, str) for w in kb)):
+        raise FailClosed('keyword/builtins dump malformed')
+    parts.append('(* sorted(set(keyword.kwlist + dir(builtins))) of the interpreter that runs nunavut *)\n' + _str_list('py_interpreter_reserved', kb))
     parts.append('(* functools.lru_cache on TokenEncoder.strop: %s *)\nDefinition strop_lru_maxsize : option nat := %s.\n'
                  % ('maxsize=%d' % ms if ms is not None else 'absent', 'Some %d%%nat' % ms if ms is not None else 'None'))
     for ln in LANGS:
@@ -244,10 +322,12 @@ def build_text(doc: dict) -> str:
             '  sc_ws_char := %s;\n'
             '  sc_collapse := %s;\n'
             '  sc_strop_handler := %s; (* %s *)\n'
-            '  sc_enc_handler := %s (* %s *)\n|}.\n'
+            '  sc_enc_handler := %s; (* %s *)\n'
+            '  sc_reverify := %s\n|}.\n'
             % (ln, ln, pm, rm, _cstr(c['prefix']), _comment(repr(c['prefix'])), _cstr(c['suffix']), _comment(repr(c['suffix'])),
                _cstr(c['enc_prefix']), _comment(repr(c['enc_prefix'])), ws, 'true' if c['collapse'] else 'false',
-               hs, _comment(str((c['strop_handler'] or {}).get('qualname'))), he, _comment(str((c['enc_handler'] or {}).get('qualname')))))
+               hs, _comment(str((c['strop_handler'] or {}).get('qualname'))), he, _comment(str((c['enc_handler'] or {}).get('qualname'))),
+               'true' if reverify else 'false'))
         types = sorted(set(c['patterns']) | set(c['rules']))
         parts.append('(* identifier types the language configures (keys of the two maps) *)\n' + _str_list('%s_id_types' % ln, types))
     return '\n'.join(parts)
